@@ -1218,7 +1218,8 @@ def gen_iso_special(rng, n_exact, n_tol):
         pts = gen_points(rng, N, dim, rng.choice([6, 12, 40]), clusters=rng.random() < 0.2)
         mode = rng.choice(["N-1", "N-1", "N-1", "N-2", "outlier"])
         if mode == "outlier" and N >= 8:
-            pts[rng.randrange(N)] = [1000 + rng.randrange(50) for _ in range(dim)]
+            # (200: far outside the cloud, yet squared lengths stay below 2^36 so that the exact stream stays exact)
+            pts[rng.randrange(N)] = [200 + rng.randrange(50) for _ in range(dim)]
             k = 3
         else:
             k = N - 1 if mode != "N-2" else max(3, N - 2)
@@ -1445,7 +1446,14 @@ def evaluate_iso(ctx, exes, cases, stats):
                 else:
                     flat = [x for row in B for x in row]
                     scale = max([1.0] + [abs(x) for x in flat])
-                    if c["exact"]:
+                    exact = c["exact"]
+                    mx = max(x for row in sp for x in row)
+                    if exact and mx * mx * N * N >= (1 << 50):
+                        # squared lengths with the 2 log2(N) fractional bits of the means no longer fit 53 bits: the
+                        # double computation may round, so this case is judged on the tolerance stream
+                        exact = False
+                        stats["B_exact_demoted_to_tolerance"] += 1
+                    if exact:
                         bad = [i for i, (x, y) in enumerate(zip(flat, mds)) if Fraction(x) != y]
                         if (verdict != "mds ok") != bool(bad):
                             raise vlib.BuildError("check_mds and the entrywise comparison disagree")
@@ -1457,13 +1465,13 @@ def evaluate_iso(ctx, exes, cases, stats):
                         b_bad = "the matrix Isomap hands to the eigensolver is not -1/2 J S J of the shortest-path " \
                                 "lengths of its neighbourhood graph (S = squared lengths of both directions " \
                                 "averaged; %s comparison): entry (%d,%d) is %r, classical MDS of the geodesics has " \
-                                "%r" % ("exact" if c["exact"] else "1e-9 relative", u, v, flat[i], float(mds[i]))
+                                "%r" % ("exact" if exact else "1e-9 relative", u, v, flat[i], float(mds[i]))
                         gap = max(((c["T"][a][b2] - sp[a][b2], a, b2) for a in range(N) for b2 in range(N)
                                    if a != b2), default=(0, 0, 0))
                         if gap[0] > 0:
                             b_bad += "; e.g. the shortest path %d->%d has length %s while the direct callback " \
                                      "distance is %s" % (gap[1], gap[2], sp[gap[1]][gap[2]], c["T"][gap[1]][gap[2]])
-                    stats["B_exact" if c["exact"] else "B_tolerance"] += 1
+                    stats["B_exact" if exact else "B_tolerance"] += 1
                 if b_bad:
                     ctx.violation(extra, "%s (%s)" % (b_bad, where))
                     continue            # the embedding of a wrong matrix is not judged separately
@@ -1649,7 +1657,7 @@ def new_stats():
     return {"model_rows": 0, "traces": 0, "trace_agree": 0, "trace_disagree": 0, "trace_calls": 0,
             "skipped_runs": 0, "big_rows_checked": 0, "tolerance_matrices": 0, "old_f4_model_differs": 0, "iso": {}, "iso_exceptions": 0,
             "iso_disconnected": 0, "iso_graph_source": {}, "iso_complete_graph": 0,
-            "iso_geodesic_call_not_observed": 0, "B_exact": 0, "B_tolerance": 0, "emb_checked": 0, "emb_degenerate": 0,
+            "iso_geodesic_call_not_observed": 0, "B_exact_demoted_to_tolerance": 0, "B_exact": 0, "B_tolerance": 0, "emb_checked": 0, "emb_degenerate": 0,
             "emb_oracle_bad": 0, "emb_worst_rel": 0.0, "oracle_contract_worst": 0.0,
             "heap_decrease_key_situations": {k: 0 for k in HEAP_CLASSES}, "heap_aimed_candidates": 0,
             "large_rows_checked": 0}
